@@ -202,45 +202,55 @@ Spec == Init /\ [][Next]_vars
 FairSpec == Spec /\ WF_vars(Progress)
 
 -----------------------------------------------------------------------------
-\* Properties (C14 as stated)
+\* Properties (C14 as stated).  Each is an operator over a state T (the trace specification
+\* evaluates them on the states it reconstructs) and an invariant over S.
 
 AllDone(T) == \A e \in EX(T) : T.ex[e].pc = "done"
 
 \* the cache never exceeds its configured size (and is a proper map)
-Bounded == /\ Len(S.lru) <= MaxLRU
-           /\ Cardinality(Range(S.lru)) = Len(S.lru)
-           /\ DOMAIN S.ent = Range(S.lru)
+BoundedT(T, cap) == /\ Len(T.lru) <= cap
+                    /\ Cardinality(Range(T.lru)) = Len(T.lru)
+                    /\ DOMAIN T.ent = Range(T.lru)
+Bounded == BoundedT(S, MaxLRU)
 
 \* prepared once: a PREPARE is started only by a lookup that misses and inserts; a key is absent
-\* only initially or after a removal
-PreparedOnce == \A k \in DOMAIN S.nprep :
-                  /\ S.nprep[k] <= 1 + S.nrem[k]
-                  /\ Cardinality({f \in Flights(S) : S.fl[f].key = k}) <= 1 + S.nrem[k]
+\* only initially or after a removal:  #PREPARE(key) <= 1 + #removals(key)
+PreparedOnceK(T, k) == /\ T.nprep[k] <= 1 + T.nrem[k]
+                       /\ Cardinality({f \in Flights(T) : T.fl[f].key = k}) <= 1 + T.nrem[k]
+PreparedOnceT(T) == \A k \in DOMAIN T.nprep : PreparedOnceK(T, k)
+PreparedOnce == PreparedOnceT(S)
 
 \* a failed flight is not in the cache once its result is published
-FailedNotCached == \A k \in DOMAIN S.ent : S.fl[S.ent[k]].st # "done_fail"
+FailedNotCachedT(T) == \A k \in DOMAIN T.ent : T.fl[T.ent[k]].st # "done_fail"
+FailedNotCached == FailedNotCachedT(S)
 
 \* ... and is reported to everyone who waited on it
-FailedReported == \A e \in EX(S) :
-   (S.ex[e].cur # 0 /\ S.fl[S.ex[e].cur].st = "done_fail" /\ S.ex[e].pc # "wait")
-     => (S.ex[e].pc = "done" /\ S.ex[e].res \in {"err_prepare", "err_ctx"})
+FailedReportedE(T, e) ==
+   (T.ex[e].cur # 0 /\ T.fl[T.ex[e].cur].st = "done_fail" /\ T.ex[e].pc # "wait")
+     => (T.ex[e].pc = "done" /\ T.ex[e].res \in {"err_prepare", "err_ctx"})
+FailedReportedT(T) == \A e \in EX(T) : FailedReportedE(T, e)
+FailedReported == FailedReportedT(S)
 
 \* every EXECUTE / BATCH entry carries an id the node returned for THAT host+keyspace+statement in a
 \* flight this executor waited on, with that statement's metadata and the right number of values
-ExecAttribution == \A e \in EX(S) : S.ex[e].nframes > 0 =>
-   LET fr == S.ex[e].frame IN
-   /\ Len(fr.ids) = Len(Items(S, e))
+ExecAttributionE(T, e) == T.ex[e].nframes > 0 =>
+   LET fr == T.ex[e].frame IN
+   /\ Len(fr.ids) = Len(Items(T, e))
    /\ \A i \in 1 .. Len(fr.ids) :
-        /\ fr.ids[i].k = KeyOf(S.plan, e, i)
-        /\ \E f \in S.ex[e].waited : S.fl[f].id = fr.ids[i] /\ S.fl[f].key = KeyOf(S.plan, e, i)
-        /\ fr.meta[i] = Items(S, e)[i].s
-        /\ fr.nvals[i] = Arity[Items(S, e)[i].s]
+        /\ fr.ids[i].k = KeyOf(T.plan, e, i)
+        /\ \E f \in T.ex[e].waited : T.fl[f].id = fr.ids[i] /\ T.fl[f].key = KeyOf(T.plan, e, i)
+        /\ fr.meta[i] = Items(T, e)[i].s
+        /\ fr.nvals[i] = Arity[Items(T, e)[i].s]
+ExecAttributionT(T) == \A e \in EX(T) : ExecAttributionE(T, e)
+ExecAttribution == ExecAttributionT(S)
 
 ArityWrong(T, e) == \E i \in 1 .. Len(Items(T, e)) : Items(T, e)[i].n # Arity[Items(T, e)[i].s]
 \* arity mismatch => error, nothing sent
-ArityChecked == \A e \in EX(S) : ArityWrong(S, e) =>
-                   /\ S.ex[e].nframes = 0
-                   /\ S.ex[e].pc = "done" => S.ex[e].res # "ok"
+ArityCheckedE(T, e) == ArityWrong(T, e) =>
+                   /\ T.ex[e].nframes = 0
+                   /\ T.ex[e].pc = "done" => T.ex[e].res # "ok"
+ArityCheckedT(T) == \A e \in EX(T) : ArityCheckedE(T, e)
+ArityChecked == ArityCheckedT(S)
 
 \* an error result has a cause; success means the node accepted ids it currently knows
 Justified == \A e \in EX(S) : S.ex[e].pc = "done" =>
